@@ -903,6 +903,30 @@ func buildStubs() map[string]stubFn {
 	m["strings.Index"] = func(ex *Exec, c *frame, fn *ssa.Function, a []Value) Value {
 		return ex.i64(int64(strings.Index(ex.mustStr(a[0], "strings.Index"), ex.mustStr(a[1], "strings.Index"))))
 	}
+	// index of a byte in a string: exact for symbolic content too (first position whose byte equals c, decided
+	// position by position)
+	idxByte := func(ex *Exec, c *frame, fn *ssa.Function, a []Value) Value {
+		var bs []*Term
+		switch x := a[0].(type) {
+		case *StrV:
+			bs = x.b
+		case *SliceV:
+			if !x.isNil() {
+				bs = ex.bytesOf(x)
+			}
+		}
+		ch := a[1].(*Term)
+		for i, b := range bs {
+			if ex.branch(ex.tc.Eq(b, ch)) {
+				return ex.i64(int64(i))
+			}
+		}
+		return ex.i64(-1)
+	}
+	m["internal/bytealg.IndexByteString"] = idxByte
+	m["internal/bytealg.IndexByte"] = idxByte
+	m["strings.IndexByte"] = idxByte
+	m["bytes.IndexByte"] = idxByte
 	m["strings.TrimSpace"] = func(ex *Exec, c *frame, fn *ssa.Function, a []Value) Value {
 		return ex.mkStr(strings.TrimSpace(ex.mustStr(a[0], "strings.TrimSpace")))
 	}
@@ -1603,6 +1627,12 @@ func buildStubs() map[string]stubFn {
 		}
 		ex.effect()
 		store(dp, val)
+		return ex.nilError()
+	}
+
+	// ---- environment of olric.New: the network configuration (interface lookup, address resolution) is the
+	// machine's, not the program's: it succeeds and leaves the configured addresses as they are
+	m["(*"+olricPath+"/config.Config).SetupNetworkConfig"] = func(ex *Exec, c *frame, fn *ssa.Function, a []Value) Value {
 		return ex.nilError()
 	}
 
